@@ -25,9 +25,9 @@ type Variant struct {
 	NodeVal    *Key // identity (nil = validator 0)
 	NodeSeed   byte
 	Rotation   config.ChainStateRotationCfg
-	SkipFailed map[[2]int]bool // C06: (block, tx index) to leave out
+	SkipFailed map[[2]int]bool                      // C06: (block, tx index) to leave out
 	Checks     func(r *Replica, block int, pos int) // C07: called at every call boundary (pos: -1 before BeginBlock, k after k-th item, 1000 after EndBlock, 1001 after Commit)
-	CrashAt    map[[2]int]bool // C08: crash at boundary (block, pos) (pos as above; pos 1001 = after commit)
+	CrashAt    map[[2]int]bool                      // C08: crash at boundary (block, pos) (pos as above; pos 1001 = after commit)
 }
 
 type Transcript struct {
@@ -203,11 +203,11 @@ func runVariant(w *World, gen *GenesisSpec, h *History, v *Variant, dumpHeights 
 }
 
 type Divergence struct {
-	Block   int    `json:"block"` // 1-based height
-	What    string `json:"what"`  // apphash | updates | txresult | info | tmerror | nblocks
-	Tx      int    `json:"tx"`
-	A       string `json:"a"`
-	B       string `json:"b"`
+	Block   int      `json:"block"` // 1-based height
+	What    string   `json:"what"`  // apphash | updates | txresult | info | tmerror | nblocks
+	Tx      int      `json:"tx"`
+	A       string   `json:"a"`
+	B       string   `json:"b"`
 	KeyDiff []string `json:"key_diff,omitempty"`
 }
 
@@ -283,16 +283,16 @@ func dumpDiff(a, b map[string]string) []string {
 }
 
 type TwinCase struct {
-	Index    int          `json:"index"`
-	Genesis  string       `json:"genesis"`
-	Variant  string       `json:"variant"`
-	Blocks   int          `json:"blocks"`
-	Txs      int          `json:"txs"`
-	Failed   int          `json:"failed_txs"`
-	Extra    string       `json:"extra,omitempty"`
-	Div      *Divergence  `json:"divergence,omitempty"`
-	History  []HBlockJSON `json:"history,omitempty"`
-	Descr    [][]string   `json:"descr,omitempty"`
+	Index   int          `json:"index"`
+	Genesis string       `json:"genesis"`
+	Variant string       `json:"variant"`
+	Blocks  int          `json:"blocks"`
+	Txs     int          `json:"txs"`
+	Failed  int          `json:"failed_txs"`
+	Extra   string       `json:"extra,omitempty"`
+	Div     *Divergence  `json:"divergence,omitempty"`
+	History []HBlockJSON `json:"history,omitempty"`
+	Descr   [][]string   `json:"descr,omitempty"`
 }
 
 type TwinReport struct {
@@ -474,6 +474,7 @@ func buildVariants(mode string, w *World, h *History, base *Transcript, r *rand.
 	case "c01":
 		other := seedKey(250)
 		nv := w.Vals[1].Val
+		nv2 := w.Vals[2].Val
 		return []*Variant{
 			{Name: "same-node-again"},
 			{Name: "same-node-third-run"},
@@ -483,6 +484,12 @@ func buildVariants(mode string, w *World, h *History, base *Transcript, r *rand.
 			// a node with another process lifetime: restarted after two commits (the blocks it is
 			// fed are the same; what differs is which in-memory state it carries)
 			{Name: "restarted-node", CrashAt: map[[2]int]bool{{len(h.Blocks) / 3, 1001}: true, {2 * len(h.Blocks) / 3, 1001}: true}},
+			// nodes that have been restarted once right after genesis, one per genesis validator: what a
+			// process reads from its store at start (e.g. "is this node an Ethereum witness") then holds
+			// for the whole history, as on every long-running node
+			{Name: "restarted-early-node", CrashAt: map[[2]int]bool{{0, 1001}: true}},
+			{Name: "restarted-early-validator-1", NodeVal: &nv, NodeSeed: 4, CrashAt: map[[2]int]bool{{0, 1001}: true}},
+			{Name: "restarted-early-validator-2", NodeVal: &nv2, NodeSeed: 5, CrashAt: map[[2]int]bool{{0, 1001}: true}},
 		}
 	}
 	panic("bad mode")
